@@ -182,7 +182,7 @@ def run(ctx):
     ctx.extra['exhaustive_subspace'] = 'chi^2 vectors of length 0..%d over a 7-letter alphabet' % nmax
     ctx.assume("('A', value): the documented two-element form is driven; keep(('A',)) cannot be unpacked and is not claimed",
                'thresholds never equal an attained value (docs: "below"; code: <=) and are finite', 'N >= 0 integer')
-    ctx.require_events('FitInfo.keep:post', 'composition:twice', 'composition:looser-first')
+    ctx.require_events('FitInfo.keep:post', 'composition:twice', 'composition:looser-first', 'history:source-flags-changed')
     ctx.require_regimes('has_nan', 'has_inf', 'has_ties', 'empty', 'long_vector')
     i = 0
     for n in range(0, nmax + 1):
@@ -202,6 +202,27 @@ def run(ctx):
                 if len(set(vec)) < n:
                     ctx.regime('has_ties')
             i += 1
+    # one Source object re-used while its flags change (re-assigned and edited in place): n_data must follow the flags
+    for j in range((120 if ctx.quick else 4000) // ctx.nshards):
+        vec = np.round(gen.loguniform(rng, 0.5, 50, int(rng.integers(2, 9))), 1)
+        info = make_info(vec, int(rng.integers(1, 5)), 4, rng)
+        src = info.source
+        for step in range(3):
+            nfit = int(rng.integers(1, 7))
+            newv = np.array([1] * nfit + [2, 3, 0, 9][:int(rng.integers(0, 5))])
+            rng.shuffle(newv)
+            if step == 1 and len(newv) == len(src.valid):
+                src.valid[:] = newv                      # edited in place
+            else:
+                src.flux = None
+                src.error = None
+                src.valid = None
+                src.valid = newv                          # re-assigned
+                src.flux = np.ones(len(newv))
+                src.error = np.ones(len(newv)) * 0.1
+            check_info(ctx, info, int(np.sum((newv == 1) | (newv == 4))), rng, pairs=2)
+            ctx.event('history:source-flags-changed')
+        ctx.case(('reuse', j, ctx.shard), nontrivial=True)
     # sampled longer vectors
     n_long = (320 if ctx.quick else 40000) // ctx.nshards
     for j in range(n_long):
